@@ -57,6 +57,9 @@ pub fn profile_for(prop: &str, tier: &str) -> Profile {
         }
         "C10" => {
             p.alias_pct = 80;
+            // under-margined victims are what an aliased Liquidate needs
+            p.w_macro = [0, 9, 3, 2, 2, 1, 3, 1, 2, 2, 1];
+            p.macro_pct = 15;
         }
         "C14" => {
             p.w_ops = [20, 8, 5, 6, 8, 6, 3, 8, 30, 1, 0];
